@@ -62,8 +62,8 @@ class TrackList(list):
         self.dirty = []
 
     def __setitem__(self, a, v):
+        list.__setitem__(self, a, v)      # raises like a list for an address outside it
         self.dirty.append(a)
-        list.__setitem__(self, a, v)
 
 
 def run_one(classes, case, kind, shared):
